@@ -5,6 +5,8 @@ pub mod c08;
 pub mod c09;
 pub mod c10;
 pub mod c11;
+pub mod c14;
+pub mod c14_bin;
 pub mod c15;
 pub mod c16;
 pub mod c17;
@@ -21,6 +23,7 @@ pub fn run(a: &Args) -> i32 {
         "C09" => c09::run(a),
         "C10" => c10::run(a),
         "C11" => c11::run(a),
+        "C14" => c14::run(a),
         "C15" => c15::run(a),
         "C16" => c16::run(a),
         "C17" => c17::run(a),
@@ -55,6 +58,7 @@ pub fn replay(file: &str) -> i32 {
         "C09" => c09::replay(&v),
         "C10" => c10::replay(&v),
         "C11" => c11::replay(&v),
+        "C14" => c14::replay(&v),
         "C15" => c15::replay(&v),
         "C16" => c16::replay(&v),
         "C17" => c17::replay(&v),
